@@ -10,7 +10,8 @@ use qv::props::bitsprops::BitsCase;
 fuzz_target!(|data: &[u8]| {
     let mut u = Unstructured::new(data);
     let kind = pick(&mut u, &[BitsKind::Narrow, BitsKind::Wide, BitsKind::Da0, BitsKind::Da1]);
-    let bvhow = pick(&mut u, &[BvHow::Bools, BvHow::Pushes, BvHow::PosUsize, BvHow::PosU32, BvHow::PosI64]);
+    let lm: u8 = (data.len() as u8).wrapping_mul(29);
+    let bvhow = pick(&mut u, &[BvHow::Bools, BvHow::Pushes, BvHow::PosUsize, BvHow::PosU32, BvHow::PosI64, BvHow::BoolsLoose(lm), BvHow::PosLoose(lm), BvHow::ExtendPieces(lm)]);
     let wrap = pick(&mut u, &[WrapHow::New, WrapHow::From, WrapHow::Collect]);
     let plan_seed: u64 = u.arbitrary().unwrap_or(0);
     let mut bits: Vec<bool> = Vec::new();
